@@ -22,7 +22,12 @@ vectors, `K` is an arbitrary `d × d` matrix, not even symmetric):
                               `Nonsingular`;
   * `solve_sound`             the model's solver returns THE solution whenever a solution exists;
   * `region_solver_exact`     hence on affine data `Region.solve` returns `g_k = a` for all k and
-                              the exact fluxes / pressures — for every region it solves at all.
+                              the exact fluxes / pressures — for every region it solves at all;
+  * `face_flux_exact`, `face_pressure_exact`   from sub-faces to faces (sum / mean);
+  * `mpfa2d_linear_exact`     the lifted statement for the executable 2-D discretisation `Grid2`
+                              (regions built by the model from `face_nodes` / `cell_faces`): for every
+                              well-formed grid whose regions are all certified, the assembled
+                              scheme is exact on affine data on every face / boundary face.
 
 Face quantities of the real code are sums (flux) / means (pressure) of the sub-face quantities
 over the nodes of the face (`hf2f`, `area_mat`); for the flux the sum of `−(n_f/N)·K a` over the
@@ -250,6 +255,90 @@ theorem face_pressure_exact (pf : Rat) (N : Nat) (hN : N ≠ 0) (pr : List Rat)
   have hNq : (N : Rat) ≠ 0 := by exact_mod_cast hN
   grind
 
+/-- **`mpfa2d_linear_exact` — the lifted statement for the executable 2-D discretisation.**
+    For EVERY well-formed 2-D grid (any topology given by `face_nodes` / `cell_faces`, any
+    geometry arrays, any η, any boundary-type assignment) for which all interaction regions are
+    certified nonsingular (`G.certs = some Ls`), the assembled scheme — per node the region the
+    model builds itself, gradients `L_v · rhs_v`, sub-face fluxes summed per face, sub-face
+    pressures averaged per face — applied to the data of an affine field `p(x) = a·x + b` with a
+    constant permeability `K` (cell values `p(x_c)`, Dirichlet values `p(x_f)`, Neumann values
+    `−sgn · n_f·K a`) gives the exact Darcy flux `−n_f·K a` on every face and the exact pressure
+    `p(x_f)` on every boundary face. -/
+theorem mpfa2d_linear_exact (G : Grid2) (K : Mat) (a : Vec) (b : Rat) (p bc : List Rat)
+    (Ls : List Mat) (hwf : G.WF) (ha : a.length = 2) (hdata : G.AffineGlobal K a b p bc)
+    (hcert : G.certs = some Ls) :
+    ∀ f < G.numFaces,
+      G.faceFlux (G.nodeSols Ls p bc) bc f = -(nKg (G.fnAt f) K a) ∧
+      (G.isBoundary f = true → G.facePres (G.nodeSols Ls p bc) bc f = affine a b (G.fcAt f)) := by
+  intro f hf
+  obtain ⟨hne, hnodes⟩ := hwf.2.2.2.2.2.2.2.2.2.1 _ (getD_mem' G.faceNodes f [] hf)
+  change G.fnodes f ≠ [] at hne
+  change ∀ v ∈ G.fnodes f, v < G.numNodes at hnodes
+  have hN : (G.fnodes f).length ≠ 0 := by
+    intro h0; exact hne (List.length_eq_zero_iff.mp h0)
+  -- per node of the face: all gradients of its region equal `a`
+  have hnode : ∀ v ∈ G.fnodes f,
+      (G.mkFace bc v f).flux (Grid2.nodeSolAt (G.nodeSols Ls p bc) v).R
+          (gradFn (Grid2.nodeSolAt (G.nodeSols Ls p bc) v).Gs) = -(nKg (G.mkFace bc v f).n K a) ∧
+      (G.mkFace bc v f).pres (Grid2.nodeSolAt (G.nodeSols Ls p bc) v).R
+          (gradFn (Grid2.nodeSolAt (G.nodeSols Ls p bc) v).Gs) = affine a b (G.mkFace bc v f).xc := by
+    intro v hv
+    have hvn := hnodes v hv
+    rw [G.nodeSolAt_nodeSols Ls p bc v hvn]
+    have hRwf := G.region_wf hwf p bc v hvn
+    have hRaff := G.region_affine hwf K a b p bc hdata v
+    have hcons := local_consistency 2 _ K a b hRwf hRaff
+    have hsol := cert_solution 2 _ _ hRwf (G.certs_ok Ls hcert p bc v hvn) (fun _ => a) (fun _ => ha) hcons
+    have hgrad : ∀ i < (G.region p bc v).cells.length,
+        gradFn (chunks 2 (G.region p bc v).cells.length
+          (mulVec (Ls.getD v []) ((G.region p bc v).rhs 2))) i = a := by
+      intro i hi
+      rw [hsol, gradFn_tabulate _ _ _ hi]
+    have hmem : G.mkFace bc v f ∈ (G.region p bc v).faces := by
+      simp only [Grid2.region, List.mem_map]
+      exact ⟨f, (G.mem_facesOf v f).mpr ⟨hf, hv⟩, rfl⟩
+    exact ⟨flux_of_const 2 _ K a b hRwf hRaff _ hgrad _ hmem,
+      pres_of_const 2 _ K a b hRwf hRaff _ hgrad _ hmem⟩
+  constructor
+  · unfold Grid2.faceFlux
+    apply face_flux_exact (G.fnAt f) K a (G.fnodes f).length hN
+    · simp
+    · intro x hx
+      simp only [List.mem_map] at hx
+      obtain ⟨v, hv, rfl⟩ := hx
+      rw [(hnode v hv).1, G.mkFace_n]
+      rfl
+  · intro hb
+    unfold Grid2.facePres
+    apply face_pressure_exact (affine a b (G.fcAt f)) (G.fnodes f).length hN
+    · simp
+    · intro x hx
+      simp only [List.mem_map] at hx
+      obtain ⟨v, hv, rfl⟩ := hx
+      rw [(hnode v hv).2]
+      -- on a boundary face the continuity point is the face centre
+      rcases G.fcells_cases hwf f hf with ⟨c, s, hl, _⟩ | ⟨c1, s1, c2, s2, hl, _, _, _⟩
+      · rw [G.mkFace_bnd bc v f c s hl]; split <;> rfl
+      · simp [Grid2.isBoundary, hl] at hb
+
+/-- the computed affine data satisfy `AffineGlobal` when the permeability is the same in all cells -/
+theorem affineData_affineGlobal (G : Grid2) (K : Mat) (a : Vec) (b : Rat)
+    (hK : ∀ c < G.numCells, G.permAt c = K) :
+    G.AffineGlobal K a b (G.affineData K a b).1 (G.affineData K a b).2 := by
+  constructor
+  · intro c hc
+    refine ⟨hK c hc, ?_⟩
+    simp only [Grid2.affineData]
+    rw [getD_map_range _ G.numCells c 0 hc]
+  · intro f hf
+    unfold Grid2.bcOK
+    simp only [Grid2.affineData]
+    rw [getD_map_range _ G.numFaces f 0 hf]
+    unfold Grid2.affineBc
+    split
+    · split <;> rfl
+    · trivial
+
 /-- `withAffine` produces affine data (the driver uses it to fill in the data from `(K, a, b)`). -/
 theorem withAffine_affineData (R : Region) (K : Mat) (a : Vec) (b : Rat) :
     (R.withAffine K a b).AffineData K a b := by
@@ -310,6 +399,28 @@ example : ([-1, -1] : List Rat).sum = -(nKg [1, 0] exK [1, 0]) :=
 
 example : ([7/2, 7/2] : List Rat).sum / ((2 : Nat) : Rat) = 7/2 :=
   face_pressure_exact (7/2) 2 (by decide) [7/2, 7/2] rfl (by decide +kernel)
+
+/-- a concrete grid for `mpfa2d_linear_exact`: two unit squares side by side, full anisotropic `K`,
+    Dirichlet on the left, bottom-right and top-right faces, Neumann elsewhere -/
+def exGrid : Grid2 :=
+  { nodes := [[0, 0], [1, 0], [2, 0], [0, 1], [1, 1], [2, 1]],
+    faceNodes := [[0, 3], [1, 4], [2, 5], [0, 1], [1, 2], [3, 4], [4, 5]],
+    faceCells := [[(0, -1)], [(0, 1), (1, -1)], [(1, 1)], [(0, -1)], [(1, -1)], [(0, 1)], [(1, 1)]],
+    cellCenters := [[1/2, 1/2], [3/2, 1/2]],
+    faceCenters := [[0, 1/2], [1, 1/2], [2, 1/2], [1/2, 0], [3/2, 0], [1/2, 1], [3/2, 1]],
+    faceNormals := [[1, 0], [1, 0], [1, 0], [0, 1], [0, 1], [0, 1], [0, 1]],
+    perm := [exK, exK],
+    isDir := [true, false, false, false, true, false, true],
+    eta := 0 }
+
+/-- hypotheses of `mpfa2d_linear_exact` are satisfiable and its conclusion is what the model computes:
+    all six interaction regions are certified, and the assembled scheme applied to the data of
+    `p = 3x − 2y + 1/2` returns the exact fluxes `−n_f·K a` = (−4,−4,−4,3,3,3,3) -/
+example :
+    exGrid.WF ∧ (exGrid.certs).isSome = true ∧
+    (exGrid.certs).map (fun Ls =>
+      (exGrid.apply Ls (exGrid.affineData exK [3, -2] (1/2)).1 (exGrid.affineData exK [3, -2] (1/2)).2).1)
+      = some [-4, -4, -4, 3, 3, 3, 3] := by decide +kernel
 
 /-- constant data: zero flux -/
 example :
